@@ -15,6 +15,13 @@
 //    ref    := name-hex x y mag-bits rot-bits (- | m) flip(0|1) rep props
 //    label  := text-hex layer type x y rep props
 //  All integers hexadecimal (signed with a leading '-'), doubles as the 16 hex digits of their bit pattern.
+//  kind "wrd": the same with the shape-detection flags of Polygon::to_oas (coq/OasisWriteDetect.v): write_oas is called
+//  with OASIS_CONFIG_DETECT_RECTANGLES and / or OASIS_CONFIG_DETECT_TRAPEZOIDS (circle tolerance 0, compression 0) on a
+//  library whose polygons are mostly detection material: rectangles, squares, each of the 26 compact trapezoid shapes,
+//  general horizontal / vertical trapezoids (one or two slanted sides, either sign), crossed quadrilaterals with two
+//  parallel sides, and near-misses of all of these (one vertex one grid step off, a fifth collinear vertex, zero height
+//  or width, a repeated vertex), from every starting vertex in both orientations.  The M line is the extracted
+//  write_oas_model_d.  Payload: "<layout-seed> <variant> | <dr(0|1)> <dt(0|1)> <library text>", variant = cfg + 2 * dr + 4 * dt.
 #include <fcntl.h>
 #include <gdstk/gdstk.hpp>
 #include "oas_layout.hpp"
@@ -188,16 +195,137 @@ static void restrict_layout(ALib& L, Rng& g, Out* out) {
     }
 }
 
-static void run_case(Out& out, uint64_t ls, unsigned variant) {
+// ---- kind "wrd": polygons that the detection of Polygon::to_oas accepts, or only just rejects
+static void rot_rev(std::vector<P2>& p, Rng& g) {
+    if (p.empty()) return;
+    std::rotate(p.begin(), p.begin() + g.below(p.size()), p.end());
+    if (g.coin()) std::reverse(p.begin(), p.end());
+}
+static std::vector<P2> detect_shape(Rng& g, std::string& shape) {
+    std::vector<P2> q;
+    int sel = (int)g.below(100);
+    if (sel < 12) {
+        int64_t w = g.range(1, 300), h = g.chance(35) ? w : g.range(1, 300);
+        if (g.chance(6)) w = g.chance(50) ? 1 : (int64_t)1 << g.range(7, 40);   // one byte / many bytes of an unsigned integer
+        q = {{0, 0}, {w, 0}, {w, h}, {0, h}};
+        shape = w == h ? "square" : "rectangle";
+    } else if (sel < 50) {
+        int type = (int)g.below(26);
+        int64_t a = g.range(1, 120), b = g.range(1, 120);
+        int64_t w, h;
+        if (type <= 3) { h = a; w = a + b; }
+        else if (type <= 5) { h = a; w = 2 * a + b; }
+        else if (type <= 7) { h = a; w = a + b; }
+        else if (type <= 11) { w = a; h = a + b; }
+        else if (type <= 13) { w = a; h = 2 * a + b; }
+        else if (type <= 15) { w = a; h = a + b; }
+        else { w = a; h = b; }
+        if (g.chance(10) && type <= 15) {  // the slanted sides meet (w = 2h for types 4..7 ...): vertices coincide
+            if (type <= 7) w = (type == 4 || type == 5) ? 2 * h : h; else h = (type == 12 || type == 13) ? 2 * w : w;
+        }
+        q = ctrapezoid_vertices(type, w, h);
+        shape = "ctrapezoid" + std::to_string(type);
+    } else if (sel < 72) {
+        // two parallel sides (horizontal, or vertical after the swap); the other two free: deltas of either sign, one of
+        // them 0 in a part of the cases (TRAPEZOID_A / _B), |delta| = height now and then (compact after all)
+        int64_t h = g.range(1, 200);
+        int64_t b0 = g.range(-100, 100), b1 = b0 + g.range(1, 200);
+        int64_t t0 = g.range(-100, 100), t1 = t0 + g.range(1, 200);
+        if (g.chance(30)) t0 = b0;
+        if (g.chance(30)) t1 = b1;
+        if (g.chance(10)) t0 = b0 + (g.coin() ? h : -h);
+        if (g.chance(10)) t1 = b1 + (g.coin() ? h : -h);
+        if (g.chance(8)) std::swap(t0, t1);            // crossed: the slanted sides intersect
+        q = {{b0, 0}, {b1, 0}, {t1, h}, {t0, h}};
+        bool vertical = g.coin();
+        if (vertical) for (auto& v : q) std::swap(v.first, v.second);
+        shape = vertical ? "trapezoid-v" : "trapezoid-h";
+    } else if (sel < 82) {
+        // right triangles and isosceles triangles near the compact types 16..23
+        int64_t a = g.range(1, 100), b = g.chance(50) ? a : g.range(1, 100);
+        switch (g.below(4)) {
+            case 0: q = {{0, 0}, {a, 0}, {0, b}}; break;
+            case 1: q = {{0, 0}, {2 * a, 0}, {a, b}}; break;
+            case 2: q = {{0, 0}, {a, b}, {0, 2 * b}}; break;
+            default: q = {{0, 0}, {a, 0}, {a, b}};
+        }
+        if (g.coin()) for (auto& v : q) v.first = -v.first;
+        if (g.coin()) for (auto& v : q) v.second = -v.second;
+        shape = "triangle3";
+    } else if (sel < 90) {
+        // zero height / zero width: all four points on one axis-parallel line, or a rectangle folded onto a segment
+        int64_t w = g.range(0, 50), k = g.range(0, 50);
+        switch (g.below(3)) {
+            case 0: q = {{0, 0}, {w, 0}, {w, 0}, {0, 0}}; break;
+            case 1: q = {{0, 0}, {w, 0}, {w + k, 0}, {k, 0}}; break;
+            default: q = {{0, 0}, {0, 0}, {0, 0}, {0, 0}};
+        }
+        if (g.coin()) for (auto& v : q) std::swap(v.first, v.second);
+        shape = "flat";
+    } else {
+        // any four points on a small grid: parallel sides by accident
+        int64_t n = g.chance(50) ? 3 : 8;
+        for (int i = 0; i < 4; i++) q.push_back(P2(g.range(0, n), g.range(0, n)));
+        shape = "grid4";
+    }
+    // near misses
+    int nm = (int)g.below(100);
+    if (nm < 12 && !q.empty()) {
+        P2& v = q[g.below(q.size())];
+        (g.coin() ? v.first : v.second) += g.coin() ? 1 : -1;
+        shape += "+off1";
+    } else if (nm < 18 && q.size() >= 3) {
+        size_t i = g.below(q.size()), j = (i + 1) % q.size();
+        P2 mid((q[i].first + q[j].first) / 2, (q[i].second + q[j].second) / 2);   // on the edge when the sum is even
+        q.insert(q.begin() + (long)i + 1, mid);
+        shape += "+mid";
+    } else if (nm < 22 && !q.empty()) {
+        size_t i = g.below(q.size());
+        q.insert(q.begin() + (long)i, q[i]);
+        shape += "+dup";
+    } else if (nm < 25 && q.size() == 4) {
+        q.erase(q.begin() + (long)g.below(4));
+        shape += "+cut";
+    }
+    rot_rev(q, g);
+    return q;
+}
+static void enrich_detect(ALib& L, Gen& gen, Rng& g, Out* out) {
+    for (auto& c : L.cells) {
+        int extra = (int)g.below(7);
+        for (int k = 0; k < extra; k++) c.polys.push_back(gen.polygon());
+        for (auto& p : c.polys) {
+            if (p.circle) {
+                p.circle = false;
+                p.pts = {{p.cx, p.cy}, {p.cx + p.cr, p.cy}, {p.cx, p.cy + p.cr}};
+            }
+            if (!g.chance(80)) { if (out) out->count("shape:generator-" + p.shape); continue; }
+            std::string shape;
+            std::vector<P2> q = detect_shape(g, shape);
+            int64_t x = gen.coord(), y = gen.coord();
+            for (auto& v : q) { v.first += x; v.second += y; }
+            p.pts = q;
+            p.shape = shape;
+            if (out) out->count("shape:" + shape);
+        }
+    }
+}
+
+static void run_case(Out& out, const std::string& kind, uint64_t ls, unsigned variant) {
     Rng lg(ls);
     Gen gen(lg, true);
     ALib L = gen.layout();
+    bool detect = kind == "wrd";
+    if (detect) enrich_detect(L, gen, lg, &out);
     restrict_layout(L, lg, &out);
     bool cell_offset = variant & 1;
+    bool dr = detect && (variant & 2), dt = detect && (variant & 4);
     std::string text = serialise(L, cell_offset);
+    if (detect) text = std::string(dr ? "1 " : "0 ") + (dt ? "1 " : "0 ") + text;
     char head[64];
     snprintf(head, sizeof head, "%llu %u | ", (unsigned long long)ls, variant);
-    std::string id = out.add("wr", head + text);
+    std::string id = out.add(kind, head + text);
+    if (detect) out.count(std::string("flags:") + (dr ? "R" : "-") + (dt ? "T" : "-"));
     // statistics of the input distribution
     out.count(cell_offset ? "cfg:cell-offset" : "cfg:none");
     for (auto& c : L.cells) {
@@ -224,7 +352,9 @@ static void run_case(Out& out, uint64_t ls, unsigned variant) {
         }
         std::string f = g_outdir + "/w.oas";
         unlink(f.c_str());
-        b.lib.write_oas(f.c_str(), 0.0, 0, (uint16_t)(cell_offset ? OASIS_CONFIG_PROPERTY_CELL_OFFSET : 0));
+        b.lib.write_oas(f.c_str(), 0.0, 0,
+                        (uint16_t)((cell_offset ? OASIS_CONFIG_PROPERTY_CELL_OFFSET : 0) |
+                                   (dr ? OASIS_CONFIG_DETECT_RECTANGLES : 0) | (dt ? OASIS_CONFIG_DETECT_TRAPEZOIDS : 0)));
         std::vector<uint8_t> file = slurp(f);
         fputs(hex_bytes(file.data(), file.size()).c_str(), o);
     };
@@ -247,25 +377,37 @@ int main(int argc, char** argv) {
     set_error_logger(NULL);
     Out out;
     out.open(argv[3]);
-    auto from_payload = [&](const std::string& p) {
+    const char* only = getenv("VERIF_KINDS");
+    auto enabled = [&](const std::string& k) { return !only || !*only || (std::string(",") + only + ",").find("," + k + ",") != std::string::npos; };
+    auto from_payload = [&](const std::string& k, const std::string& p) {
         unsigned long long ls = 0;
         unsigned variant = 0;
-        if (sscanf(p.c_str(), "%llu %u", &ls, &variant) == 2) run_case(out, ls, variant);
+        if ((k == "wr" || k == "wrd") && sscanf(p.c_str(), "%llu %u", &ls, &variant) == 2) run_case(out, k, ls, variant);
     };
     if (argc > 5) {
         std::string k, p;
-        if (load_replay(argv[5], k, p)) from_payload(p);
+        if (load_replay(argv[5], k, p)) from_payload(k, p);
         out.close();
         return 0;
     }
-    for (auto& c : load_corpus(argc > 4 ? argv[4] : NULL)) from_payload(c.second);
+    for (auto& c : load_corpus(argc > 4 ? argv[4] : NULL)) from_payload(c.first, c.second);
     Rng g0(seed);
     Rng g(g0.next());
     int layouts = thorough ? 40000 : 1200;
-    for (int li = 0; li < layouts; li++) {
-        uint64_t ls = g.next() >> 1;
-        run_case(out, ls, (unsigned)(li & 1));
-    }
+    if (enabled("wr"))
+        for (int li = 0; li < layouts; li++) {
+            uint64_t ls = g.next() >> 1;
+            run_case(out, "wr", ls, (unsigned)(li & 1));
+        }
+    // detection flags: the three non-zero flag words in turn, with and without S_CELL_OFFSET
+    Rng gd(seed * 0x100000001B3ULL + 12345);
+    int dlayouts = thorough ? 20000 : 1800;
+    if (enabled("wrd"))
+        for (int li = 0; li < dlayouts; li++) {
+            uint64_t ls = gd.next() >> 1;
+            unsigned fl = 1 + (unsigned)(li % 3);                     // 1 = rectangles, 2 = trapezoids, 3 = both
+            run_case(out, "wrd", ls, (unsigned)((li / 3) & 1) | (fl << 1));
+        }
     out.close();
     return 0;
 }
